@@ -4,7 +4,7 @@ qr_vmap / qr_vmap_uhf and the propagators' orthonormalisation wrappers are trace
 contract (ANY (Q,R) with R upper triangular, QR = A; A2): the harness builds A = Q R from a symbolic Q (no orthonormality
 needed) and a symbolic upper-triangular R and hands exactly that pair to the contract.  Obligations (all on the real code):
 overlap(A) = overlap(Q_out) * norm factor (per walker, spin blocks not mixed), E_L(A) = E_L(Q_out), force_bias(A) =
-force_bias(Q_out).  get_init_walkers is not applicable (eager NumPy/LAPACK eigenvector gauge; DESIGN 6).
+force_bias(Q_out).  get_init_walkers: bounded contract-level case in checks/c13init.py ("init-walkers"), beyond it not applicable.
 
 Two further obligations on code the property's clauses run through (same harness classes as C05-L3 / C01-rdm1, reported
 under C13 because the clause they decide is C13's):
@@ -26,12 +26,12 @@ META = {
     "trusted": ["z3 5.1.0", "JAX tracing (A6)", "qr contract stub (A2): any (Q,R), R upper triangular, QR = A - LAPACK's orthonormality and phase "
                 "convention are not verified", "det/inv stubs", "front-end polynomial normal form"],
     "assumptions": ["A1 reals for floats", "A2 linear-algebra contract stubs", "R invertible (full column rank walkers)",
-                    "get_init_walkers: not applicable (eager NumPy/LAPACK eigenvectors, data-dependent Python branches)"],
+                    "get_init_walkers: eigh/qr contracts (sign gauge enumerated), one electron per spin, restricted output, norb 2; beyond that not applicable"],
     "bounds": {"quick": "2 walkers per batch, norb 3, (1,1),(2,1),(2,2) electrons; rhf/cisd with the restricted propagator, uhf/noci/ghf with the unrestricted one; "
                         "1 Cholesky matrix; Q, R, Hamiltonian and trial parameters symbolic; free-projection bookkeeping uhf (3;2,1) with 2 walkers and a symbolic pre-state norm; "
                         "rdm1 of rhf (3;1,1),(3;2,2) and uhf (3;2,1),(3;2,2),(3;1,0)",
                "thorough": "norb 4, 2 Cholesky matrices, ucisd; bookkeeping with a noci trial; rdm1 rhf (4;2,2)"},
-    "outside": "orthonormality of LAPACK's Q; get_init_walkers; norb > 4",
+    "outside": "orthonormality of LAPACK's Q; get_init_walkers beyond (2;1,1) restricted; norb > 4",
 }
 
 
@@ -147,8 +147,9 @@ def cases(tier):
     O = {"orth": 1}
     for kind, norb, nelec in [("rhf", 3, (1, 1)), ("rhf", 3, (2, 2)), ("uhf", 3, (2, 1)), ("uhf", 3, (2, 2)), ("uhf", 3, (1, 0))]:
         out.append({"type": "init-rdm1", "kind": kind, "norb": norb, "nelec": list(nelec), "opt": O})
-    # {"type": "init-walkers", "norb": 2} (checks/c13init.py, PX on get_init_walkers under eigh/qr contracts) is NOT registered: two of its
-    # nonlinear queries come back `unknown` within 60 s (measured), so the sub-claim stays not applicable (DESIGN 6)
+    # get_init_walkers (restricted, closed shell, one electron per spin) under eigh/qr contracts: one case per eigenvector sign gauge
+    for g in ((1, 1), (1, -1), (-1, 1), (-1, -1)):
+        out.append({"type": "init-walkers", "norb": 2, "gauge": list(g)})
     if tier == "thorough":
         out.append({"type": "free-book", "kind": "noci", "norb": 3, "nelec": [1, 1], "n_walkers": 2, "opt": {"ndets": 2}})
         out.append({"type": "init-rdm1", "kind": "rhf", "norb": 4, "nelec": [2, 2], "opt": O})
